@@ -148,10 +148,17 @@ func (f inFile) String() string {
 
 func tail(b []byte) string {
 	s := strings.TrimSpace(string(b))
+	head := ""
+	for _, marker := range []string{"panic:", "fatal error:", "level=fatal", "level=panic", "unexpected signal", "SIGSEGV"} {
+		if i := strings.Index(s, marker); i >= 0 {
+			head = s[i:min(len(s), i+900)] + " … "
+			break
+		}
+	}
 	if len(s) > 600 {
 		s = "…" + s[len(s)-600:]
 	}
-	return s
+	return head + s
 }
 
 // ------------------------------------------------------------------ (a) compressed output of big inputs
